@@ -11,12 +11,14 @@ import Driver.Meta
 import Driver.Mi
 import Driver.Tr
 import Driver.Tr19
+import Driver.E2e
 open Driver
 
 def dispatch (line : String) : Verdict :=
   let toks := splitTokens line
   let (l, r) := splitBar toks
   match l with
+  | "C02" :: args => c02 args r
   | "C03" :: args => c03 args r
   | "C04" :: args => c04 args r
   | "C05" :: args => c05 args r
